@@ -259,8 +259,8 @@ def _curve_shapes(tier):
     return out
 
 
-def _curve_setup(ctx, p, mult, rational, clamped=True, dim=2, span=None):
-    U, inner, n = shapes.make_kv(ctx, p, mult, clamped=clamped, normalized=clamped)
+def _curve_setup(ctx, p, mult, rational, clamped=True, dim=2, span=None, normalized=True):
+    U, inner, n = shapes.make_kv(ctx, p, mult, clamped=clamped, normalized=clamped and normalized)
     u = shapes.param_in(ctx, 'u', U[p], U[n])
     P = shapes.net(ctx, 'P', n, dim)
     W = shapes.weights(ctx, 'w', n) if rational else None
@@ -269,7 +269,7 @@ def _curve_setup(ctx, p, mult, rational, clamped=True, dim=2, span=None):
         # tol_separated (A1): find_span_binsearch snaps parameters within 10e-6 of the domain end to the last span
         shapes.separated_knots(ctx, U, Fraction(1, 10 ** 5))
         ctx.assume(ctx.sep(u, U[n], Fraction(1, 10 ** 5)))
-    crv = shapes.build_curve(ctx, p, U, P, W, normalize_kv=clamped, span_func=span_func)
+    crv = shapes.build_curve(ctx, p, U, P, W, normalize_kv=clamped and normalized, span_func=span_func)
     Pw = shapes.homog(P, W)
     if rational:
         _assume_weight_pos(ctx, spec.curve_point(p, U, [[w] for w in W], u)[0])
@@ -333,14 +333,14 @@ def _const_net(ctx, count, dim):
             for i in range(count)]
 
 
-def _surface_setup(ctx, pu, pv, mu, mv, rational, symnet=True):
-    U, iu, su = shapes.make_kv(ctx, pu, mu, prefix='a')
-    V, iv, sv = shapes.make_kv(ctx, pv, mv, prefix='b')
+def _surface_setup(ctx, pu, pv, mu, mv, rational, symnet=True, normalized=True):
+    U, iu, su = shapes.make_kv(ctx, pu, mu, prefix='a', normalized=normalized)
+    V, iv, sv = shapes.make_kv(ctx, pv, mv, prefix='b', normalized=normalized)
     u = shapes.param_in(ctx, 'u', U[0], U[-1])
     v = shapes.param_in(ctx, 'v', V[0], V[-1])
     P = shapes.net(ctx, 'P', su * sv, 3) if symnet else _const_net(ctx, su * sv, 3)
     W = shapes.weights(ctx, 'w', su * sv) if rational else None
-    srf = shapes.build_surface(ctx, pu, pv, U, V, P, su, sv, W)
+    srf = shapes.build_surface(ctx, pu, pv, U, V, P, su, sv, W, normalize_kv=normalized)
     Pw = shapes.homog(P, W)
     if rational:
         _assume_weight_pos(ctx, spec.surface_point(pu, pv, U, V, [[w] for w in W], su, sv, u, v)[0])
@@ -534,16 +534,18 @@ def _hodo_curve_shapes(tier):
                 if p >= 4 and len(mult) > 2:
                     continue
                 out.append(dict(p=p, mult=list(mult)))
+    # shapes that keep their knot vector as given (normalize_kv=False, symbolic range): the hodograph lives on the same domain
+    out += [dict(p=2, mult=[1], normalized=False), dict(p=3, mult=[1, 1], normalized=False)]
     return out
 
 
 @scenario('C02', fns=['operations.derivative_curve', 'helpers.curve_deriv_cpts', 'BSpline.Curve.evaluate_single',
                       'BSpline.Curve.derivatives'],
           quick=lambda: _hodo_curve_shapes('quick'), thorough=lambda: _hodo_curve_shapes('thorough'))
-def hodograph_curve(ctx, p, mult):
+def hodograph_curve(ctx, p, mult, normalized=True):
     """requires non-rational curve of degree >= 2.  ensures the derivative curve has degree p-1, n-1 control points,
     and evaluates to D C(u) (its own j-th derivative to D^(j+1) C(u)); the input curve is left unchanged."""
-    U, n, u, P, W, Pw, crv = _curve_setup(ctx, p, mult, False)
+    U, n, u, P, W, Pw, crv = _curve_setup(ctx, p, mult, False, normalized=normalized)
     want = curve_oracle(ctx, p, U, Pw, u, False, p + 1)
     dcrv = ctx.geomdl('operations').derivative_curve(crv)
     ctx.check_true('degree', dcrv.degree == p - 1)
@@ -564,16 +566,17 @@ def _hodo_surface_shapes(tier):
     for b in out:
         # an interior knot of full multiplicity (= degree, a C0 line) in either direction: still a valid surface
         b['c0'] = any(m == b['pu'] for m in b['mu']) or any(m == b['pv'] for m in b['mv'])
+    out.append(dict(pu=2, pv=2, mu=[1], mv=[], c0=False, normalized=False))        # normalize_kv=False, symbolic ranges
     return out
 
 
 @scenario('C02', fns=['operations.derivative_surface', 'helpers.surface_deriv_cpts', 'BSpline.Surface.evaluate_single',
                       'BSpline.Surface.ctrlpts2d'],
           quick=lambda: _hodo_surface_shapes('quick'), thorough=lambda: _hodo_surface_shapes('thorough'))
-def hodograph_surface(ctx, pu, pv, mu, mv, c0):
+def hodograph_surface(ctx, pu, pv, mu, mv, c0, normalized=True):
     """requires non-rational surface of degrees >= 2.  ensures the three derivative surfaces evaluate to
     D_u S, D_v S and D_u D_v S, with degrees and sizes reduced in the differentiated directions only."""
-    U, V, su, sv, u, v, P, W, Pw, srf = _surface_setup(ctx, pu, pv, mu, mv, False)
+    U, V, su, sv, u, v, P, W, Pw, srf = _surface_setup(ctx, pu, pv, mu, mv, False, normalized=normalized)
     want = surface_oracle(ctx, pu, pv, U, V, Pw, su, sv, u, v, False, 2)
     s_u, s_v, s_uv = ctx.geomdl('operations').derivative_surface(srf)
     ctx.check_true('du.degrees', (s_u.degree_u, s_u.degree_v) == (pu - 1, pv))
